@@ -329,6 +329,33 @@ func (ls *LState) CallMeta(obj LValue, event string) LValue {
 
 /* load and function call operations {{{ */
 
+// skipFirstLine returns a reader for the Lua text of a file: when the file starts with '#'
+// (Unix exec. file) the first line is skipped, up to but not including the newline character
+// that ends it (line numbers stay right), or up to the end of the file.
+func skipFirstLine(file io.Reader) (*bufio.Reader, error) {
+	reader := bufio.NewReader(file)
+	c, err := reader.ReadByte()
+	if err != nil && err != io.EOF {
+		return nil, err
+	}
+	if c == byte('#') {
+		for err == nil && c != byte('\n') {
+			c, err = reader.ReadByte()
+		}
+		if err != nil && err != io.EOF {
+			return nil, err
+		}
+	}
+	if err != io.EOF {
+		// if the file is not empty,
+		// unread the first character of the file or the newline character that ends the first line.
+		if err = reader.UnreadByte(); err != nil {
+			return nil, err
+		}
+	}
+	return reader, nil
+}
+
 func (ls *LState) LoadFile(path string) (*LFunction, error) {
 	var file *os.File
 	var err error
@@ -342,32 +369,10 @@ func (ls *LState) LoadFile(path string) (*LFunction, error) {
 		}
 	}
 
-	reader := bufio.NewReader(file)
-	// get the first character.
-	c, err := reader.ReadByte()
-	if err != nil && err != io.EOF {
+	reader, err := skipFirstLine(file)
+	if err != nil {
 		return nil, newApiErrorE(ApiErrorFile, err)
 	}
-	if c == byte('#') {
-		// Unix exec. file?
-		// skip first line: everything up to the newline character or the end of the file
-		for err == nil && c != byte('\n') {
-			c, err = reader.ReadByte()
-		}
-		if err != nil && err != io.EOF {
-			return nil, newApiErrorE(ApiErrorFile, err)
-		}
-	}
-
-	if err != io.EOF {
-		// if the file is not empty,
-		// unread the first character of the file or the newline character that ends the first line.
-		err = reader.UnreadByte()
-		if err != nil {
-			return nil, newApiErrorE(ApiErrorFile, err)
-		}
-	}
-
 	return ls.Load(reader, path)
 }
 
